@@ -413,6 +413,21 @@ def check_make_stream(repo: Repo, rep: Report):
         )
     if not unb:
         rep.ok("C06.bounded-read", f.qualname, "make_stream performs no unbounded read of the caller's stream", f"{f.file}:{f.line}")
+    # the caller's stream object is handed on as it is, or replaced by an in-memory copy of bytes: any other object built
+    # AROUND it (a BufferedReader, a TextIOWrapper, a codec reader) reads ahead of the pickle - consuming what follows it in
+    # the caller's stream - and closes the caller's stream when the temporary wrapper is collected
+    ps = f.params()
+    wrapped = []
+    for n in body_walk(f.node):
+        if isinstance(n, ast.Call) and any(isinstance(a, ast.Name) and a.id in ps for a in list(n.args) + [k.value for k in n.keywords]):
+            callee = dotted(n.func) or src(n.func)
+            if callee.split(".")[-1] in ("BytesIO", "isinstance", "hasattr", "getattr", "callable", "len", "bytes", "bytearray", "memoryview", "type"):
+                continue
+            wrapped.append((n, callee))
+    for n, callee in wrapped:
+        rep.bad("C06.bounded-read", f.qualname, f"wraps-caller-stream:{callee.split('.')[-1]}", f"`{src(n)}` builds another stream object around the caller's stream: it buffers ahead (the bytes after the pickle are consumed from the caller's stream and its position no longer ends right after the pickle) and closes the caller's stream when it is garbage-collected", f.file, n.lineno)
+    if not wrapped:
+        rep.ok("C06.bounded-read", f.qualname, "the caller's stream is passed on as it is or replaced by a BytesIO of bytes; nothing is wrapped around it", f"{f.file}:{f.line}")
     # chunked buffering must stop on an *empty* read: a short read is legal for pipes/sockets/raw streams
     reads = [n for n in body_walk(f.node) if isinstance(n, ast.Assign) and isinstance(n.value, ast.Call) and isinstance(n.value.func, ast.Attribute) and n.value.func.attr in ("read", "read1", "readinto") and n.value.args and isinstance(n.targets[0], ast.Name)]
     for r in reads:
